@@ -29,6 +29,8 @@ DECIDED = [
     "C03.6 should_rerun budget table (in-flight UNKNOWN entries are counted)",
     "C03.7 flat / clone-source rows; run_test_node raises on a flat node before anything else",
     "C03.8 'found present => not run': row of the run decision table; no run call outside the should_run guard (T.O1)",
+    "C03.10 writers of started_worker / finished_worker (a reset 'finished' marker makes another worker scan and run again)",
+    "C03.11 re-entrancy into an occupied test only after the per-node waiting budget is exhausted",
 ]
 NOT_DECIDED = ["execution counts over real schedules", "retries combined with the two-step object creation (see known finding F6)"]
 MIN_INSTANCES = 30
@@ -90,6 +92,10 @@ def run(ctx: Ctx) -> None:
     ctx.call(flat_raise_first, "7b")
     ctx.call(T.t_o1, "8/T.O1")
     ctx.call(T.t_p1, "8b/T.P1")
+    from .c04 import reentrancy_rule
+
+    ctx.call(T.t_a1_owner, "10")
+    ctx.call(reentrancy_rule, "11")
 
 
 G = "cartgraph/graph.py"
